@@ -19,12 +19,12 @@ RULE = ('seeded random models x option sets (top namespace of depth 0-3 among ex
         'sha256(text+options)')
 ASSUMPTIONS = ['binding order between entities is not constrained (multiset comparison)',
                'typedef instantiations are declared in the namespace of their template (clean dialect)',
-               'namespaces are not reopened and instance-variable names of classes with enums do not clash (user obligations / known findings)']
+               'instance-variable names of classes with enums do not clash (known finding D44)']
 MIN_EVENTS = {'quick': {'bindings_compared': 3000}, 'thorough': {'bindings_compared': 60000}}
 
 
 def plan(tier, seed):
-    return {'cases': 400 if tier == 'quick' else 6000, 'watchdog_s': 1500 if tier == 'quick' else 7200}
+    return {'cases': 460 if tier == 'quick' else 6000, 'watchdog_s': 1500 if tier == 'quick' else 7200}
 
 
 def make_case(seed, tier):
